@@ -35,8 +35,12 @@ impl TmHash { pub fn as_bytes(&self) -> &[u8] { &self.bytes[..self.len] } }
 #[derive(Clone, Copy, Debug)] pub struct SignedHeader { pub header: Header, pub commit: Commit }
 #[derive(Clone, Copy, Debug)] pub struct VerificationMeta { pub commit_header: SignedHeader }
 impl VerificationMeta {
-    /// the real `fetch` (RPC + ensure_commit_has_quorum) is outside this unit: its result is an arbitrary value below
-    pub fn fetch(_client: RateLimitedVerificationClient, _height: SequencerHeight) {}
+    /// the real `fetch` (RPC + ensure_commit_has_quorum, units c09_tally / c09_quorum) is outside this unit: an arbitrary outcome
+    pub fn fetch(_client: RateLimitedVerificationClient, _height: SequencerHeight) -> Result<VerificationMeta, BoxError> { if kani::any() { Ok(any_meta()) } else { Err(BoxError) } }
+}
+pub fn any_meta() -> VerificationMeta {
+    let tm_len: usize = if kani::any() { 32 } else { 0 };
+    VerificationMeta { commit_header: SignedHeader { header: Header { chain_id: ChainId::any() }, commit: Commit { block_id: BlockId { hash: TmHash { bytes: kani::any(), len: tm_len } } } } }
 }
 #[derive(Clone, Copy, Debug, PartialEq, Eq)]
 pub struct SubmittedMetadata { pub height: SequencerHeight, pub chain_id: ChainId, pub block_hash: block::Hash }
@@ -47,26 +51,22 @@ impl SubmittedMetadata {
 }
 #[derive(Clone, Copy, Debug)] pub struct RateLimitedVerificationClient;
 #[derive(Debug)] pub struct BoxError;
+impl From<eyre::Report> for BoxError { fn from(_e: eyre::Report) -> Self { BoxError } }
 impl BoxError { pub fn as_ref(&self) -> &Self { self } }
 
 pub static mut CACHE_ANSWER: Option<VerificationMeta> = None;
 pub static mut CACHE_ASKED: Option<SequencerHeight> = None;
 pub struct Cache<K, V> { _k: std::marker::PhantomData<(K, V)> }
 impl Cache<SequencerHeight, VerificationMeta> {
-    /// arbitrary outcome of "fetch commit + validators and ensure quorum" for the asked height
-    pub fn try_get_with(&self, key: SequencerHeight, _init: ()) -> Result<VerificationMeta, Arc<BoxError>> {
+    /// moka's try_get_with: on a hit the cached value (an earlier quorum-checked commit for this height: arbitrary) is returned and the
+    /// initialiser is NOT consulted; on a miss the initialiser's outcome is returned (and cached if Ok).  The initialiser arrives already
+    /// evaluated because rule R2 made the future eager; its value is used only on a miss, as in moka.
+    pub fn try_get_with(&self, key: SequencerHeight, init: Result<VerificationMeta, BoxError>) -> Result<VerificationMeta, Arc<BoxError>> {
         unsafe { CACHE_ASKED = Some(key); }
-        if kani::any() {
-            let tm_len: usize = if kani::any() { 32 } else { 0 };
-            let meta = VerificationMeta { commit_header: SignedHeader {
-                header: Header { chain_id: ChainId::any() },
-                commit: Commit { block_id: BlockId { hash: TmHash { bytes: kani::any(), len: tm_len } } } } };
-            unsafe { CACHE_ANSWER = Some(meta); }
-            Ok(meta)
-        } else {
-            unsafe { CACHE_ANSWER = None; }
-            Err(Arc::new(BoxError))
-        }
+        let hit: bool = kani::any();
+        let r = if hit { std::mem::forget(init); Ok(any_meta()) } else { init.map_err(Arc::new) };
+        unsafe { CACHE_ANSWER = match &r { Ok(m) => Some(*m), Err(_) => None }; }
+        r
     }
 }
 mod base64 { pub mod prelude { pub struct B; impl B { pub fn encode(&self, _x: &[u8]) -> u8 { 0 } } pub const BASE64_STANDARD: B = B; } }
